@@ -281,6 +281,9 @@ func init() {
 					if len(data) > 70 && b > 2 {
 						b = 2
 					}
+					if len(data) <= 24 {
+						b = bound + 1 // short inputs: one more deviation
+					}
 					name := fmt.Sprintf("%s#%d", it.Name, ii)
 					// shard the DFS of this input over all workers
 					var last hx.Result
